@@ -154,8 +154,13 @@ impl QoSController {
     }
 
     pub fn add_resource(&mut self, resource: ResourceStructure) {
-        self.number_of_resources += 1;
-        self.length += resource.len() as u16;
+        // The controller length and resource count are 16-bit fields
+        self.number_of_resources = self
+            .number_of_resources
+            .checked_add(1)
+            .expect("too many resources");
+        self.length = u16::try_from(self.length as usize + resource.len())
+            .expect("QoS controller structure too long");
         self.resource_structure.push(resource);
     }
 }
@@ -203,6 +208,8 @@ pub struct ResourceStructure {
 impl ResourceStructure {
     pub fn new(resource_type: ResourceType, resource_flags: u16, resource_id: ResourceID) -> Self {
         let length = size_of::<u8>() * 3 + size_of::<u16>() * 2 + resource_id.len();
+        // The resource length is a 16-bit field
+        assert!(length <= u16::MAX as usize);
 
         Self {
             resource_type,
